@@ -47,8 +47,8 @@ theorem dict_unknown_strict {α : Type} (bv : DVar → Str → JShape → Except
 
 /-- vars `qname: str`, `type: str`, `items: list` and the derived-element key set of the code -/
 def exVars : List DVar :=
-  [⟨"qname".toList, "qname".toList, none, false, true⟩, ⟨"type".toList, "type".toList, none, false, true⟩,
-   ⟨"items".toList, "item".toList, some "items".toList, true, true⟩]
+  [⟨"qname".toList, "qname".toList, none, false, false, true⟩, ⟨"type".toList, "type".toList, none, false, false, true⟩,
+   ⟨"items".toList, "item".toList, some "items".toList, true, true, true⟩]
 def exDerived : List Str := ["qname".toList, "type".toList, "value".toList]
 
 /- non-vacuity: `zz` is unknown; `item` with a scalar is unknown as well (shape mismatch);
